@@ -369,7 +369,13 @@ where
             let (buffered_tx, buffered_rx) = crossbeam_channel::bounded(1);
 
             rayon::spawn(move || {
+                #[cfg(noodles_verif)]
+                crate::verif::hit(crate::verif::Site::InflateTaskStart, &buffer.buf);
                 let result = parse_block(&buffer.buf, &mut buffer.block).map(|_| buffer);
+                #[cfg(noodles_verif)]
+                if let Ok(buffer) = &result {
+                    crate::verif::hit(crate::verif::Site::InflateTaskEnd, &buffer.buf);
+                }
                 let _ = buffered_tx.send(result);
             });
 
